@@ -164,14 +164,12 @@ func errClass(msg string) string {
 		return "abort"
 	case strings.Contains(msg, "boom"):
 		return "boom"
-	case strings.Contains(msg, "error in first"):
-		return "first"
-	case strings.Contains(msg, "error in single"):
-		return "single"
 	case strings.Contains(msg, "iterator timed out"):
-		return "timeout"
+		return "timeout" // text of the iterator dependency, pinned by the repository's own tests
 	}
-	return "other"
+	// every other error is the library's own (first/single on a list of the wrong size, …): its wording
+	// is not part of any property, only that it is an error and not the injected failure
+	return "lib"
 }
 
 // canon renders a result without forcing anything but the value itself (lists are forced: only used
